@@ -252,7 +252,21 @@ func (t *tree) addBlock(b *blockRec) error {
 			zb.WorkObjectHeader().SetNonce(types.EncodeNonce(t.salt<<20 | t.nonce))
 			zb.Header().SetOutboundEtxHash(types.DeriveSha(etxs, trie.NewStackTrie(nil)))
 			zb.WorkObjectHeader().SetHeaderHash(zb.Header().Hash())
-			if err := e.sl.AddPendingEtxs(types.PendingEtxs{Header: zb.ConvertToPEtxView(), OutboundEtxs: etxs}); err != nil {
+			// adversarial first: batches that do NOT match the zone header's outbound commitment (empty, last ETX dropped) must be
+			// refused - the store is first-write-wins, an accepted forgery would shadow the genuine batch for good
+			forgedAtBlockStart := forgedCount()
+			if len(etxs) > 0 {
+				for name, forged := range map[string]types.Transactions{"empty": {}, "last-dropped": etxs[:len(etxs)-1]} {
+					if name == "last-dropped" && len(etxs) < 2 {
+						continue
+					}
+					if err := e.sl.AddPendingEtxs(types.PendingEtxs{Header: zb.ConvertToPEtxView(), OutboundEtxs: forged}); err == nil {
+						noteForged(e.ctx, "addpendingetxs", name, len(etxs))
+					}
+				}
+			}
+			before := forgedCount()
+			if err := e.sl.AddPendingEtxs(types.PendingEtxs{Header: zb.ConvertToPEtxView(), OutboundEtxs: etxs}); err != nil && before == forgedAtBlockStart {
 				return fmt.Errorf("AddPendingEtxs: %w", err)
 			}
 			manifest = append(manifest, zb.Hash())
@@ -264,7 +278,13 @@ func (t *tree) addBlock(b *blockRec) error {
 			rb.WorkObjectHeader().SetNonce(types.EncodeNonce(t.salt<<20 | t.nonce))
 			rb.Header().SetEtxRollupHash(types.DeriveSha(etxs, trie.NewStackTrie(nil)))
 			rb.WorkObjectHeader().SetHeaderHash(rb.Header().Hash())
-			if err := e.sl.AddPendingEtxsRollup(types.PendingEtxsRollup{Header: rb.ConvertToPEtxView(), EtxsRollup: etxs}); err != nil {
+			forgedAtBlockStart := forgedCount()
+			if len(etxs) > 0 {
+				if err := e.sl.AddPendingEtxsRollup(types.PendingEtxsRollup{Header: rb.ConvertToPEtxView(), EtxsRollup: types.Transactions{}}); err == nil {
+					noteForged(e.ctx, "addpendingetxsrollup", "empty", len(etxs))
+				}
+			}
+			if err := e.sl.AddPendingEtxsRollup(types.PendingEtxsRollup{Header: rb.ConvertToPEtxView(), EtxsRollup: etxs}); err != nil && forgedCount() == forgedAtBlockStart {
 				return fmt.Errorf("AddPendingEtxsRollup: %w", err)
 			}
 			manifest = append(manifest, rb.Hash())
@@ -390,6 +410,28 @@ type hist struct {
 	Blocks  []blockRec `json:"blocks"`
 	Restart bool       `json:"restart"`
 	Queries []queryRec `json:"queries"`
+}
+
+var (
+	forgedMu sync.Mutex
+	forged   []mismatch
+	forgedN  int
+)
+
+// noteForged records that the dominant node accepted a pending-ETX batch that does not match the header's commitment.
+func noteForged(ctx int, op, what string, n int) {
+	forgedMu.Lock()
+	defer forgedMu.Unlock()
+	forgedN++
+	if len(forged) < 20 {
+		forged = append(forged, mismatch{Ctx: ctx, Regime: "adversarial", Op: op, Class: "forged-batch-accepted", Err: fmt.Sprintf("%s batch accepted for a block that emitted %d ETXs", what, n)})
+	}
+}
+
+func forgedCount() int {
+	forgedMu.Lock()
+	defer forgedMu.Unlock()
+	return forgedN
 }
 
 type mismatch struct {
@@ -628,7 +670,10 @@ func cmdReplay(args []string) error {
 		tot.Restarts += w.st.Restarts
 		mm = append(mm, w.mm...)
 	}
-	res := map[string]interface{}{"behaviours": tot.Behaviours, "steps": tot.Steps, "collects": tot.Collects, "cold_collects": tot.ColdCollects,
+	forgedMu.Lock()
+	mm = append(mm, forged...)
+	forgedMu.Unlock()
+	res := map[string]interface{}{"forged_batches_accepted": forgedN, "behaviours": tot.Behaviours, "steps": tot.Steps, "collects": tot.Collects, "cold_collects": tot.ColdCollects,
 		"overlap_collects": tot.OverlapCollects, "fromdom": tot.FromDom, "subrollups": tot.SubRollups, "filters": tot.Filters,
 		"etxs_delivered": tot.Delivered, "restarts": tot.Restarts, "mismatches": mm}
 	js, _ := json.MarshalIndent(res, "", " ")
